@@ -141,7 +141,7 @@ func schedTokens(sid, tz int, lo, hi int64) ([]int64, bool) {
 	if !ok {
 		return nil, false
 	}
-	if ss, isSpec := sch.(*cron.SpecSchedule); isSpec && hi-lo <= 3*86400*sec && (lo/sec)%3 == 0 {
+	if ss, isSpec := sch.(*cron.SpecSchedule); isSpec && hi-lo <= 3*86400*sec && (lo/sec)%4 != 0 {
 		// the Next-chain against an enumeration that does not call Next
 		if bt, ok := bruteTable(ss, lo, hi); ok {
 			k := 0
@@ -565,10 +565,31 @@ func genHistory(r *vh.Rng) ([]int64, any, bool) {
 					ops = append(ops, 9, t, vh.B(r.Chance(1, 15)))
 					stale = true
 				case z == 1:
-					// the informer still shows the initial status; the write-back may be lost too
+					// the informer still shows the initial status; a real API server answers the
+					// write of such a copy 409 Conflict, which sync swallows: the write-back is lost
 					ops = append(ops, 6)
 					ops = append(ops, status...)
-					ops = append(ops, vh.B(r.Chance(1, 2)), t, vh.B(r.Chance(1, 15)))
+					ops = append(ops, 0, t, vh.B(r.Chance(1, 15)))
+					stale = true
+				case z == 2:
+					// the JOB lister lags: it shows the initial jobs (the jobs started since are
+					// missing, finished or deleted ones still show as they were) or nothing yet;
+					// the status is the current one or, sometimes, the initial one (then not written)
+					ops = append(ops, 10)
+					ok := int64(1)
+					if r.Chance(1, 4) {
+						ops = append(ops, 1)
+						ops = append(ops, status...)
+						ok = 0
+					} else {
+						ops = append(ops, 0)
+					}
+					if r.Chance(1, 3) {
+						ops = append(ops, 0)
+					} else {
+						ops = append(ops, jt...)
+					}
+					ops = append(ops, ok, t, vh.B(r.Chance(1, 15)))
 					stale = true
 				default:
 					ops = append(ops, 0, t, vh.B(r.Chance(1, 15)))
@@ -769,6 +790,39 @@ func gen(rng *vh.Rng, n int, emit func(id string, sel int, in []int64, kind stri
 			[]int64{0, t1 + 20*sec, 0})
 		emit("cron-lost-status-write", 20, in, "cron/history-known", true,
 			map[string]any{"schedule": schedPool[2], "what": "UpdateStatus fails after the Create (sync swallows the error), the run completes and is removed by successfulJobsHistoryLimit=0, the same schedule time is started again"})
+	}
+
+	// Forbid next to a live run (second audit N1 / N3), all with every Create succeeding:
+	{
+		t1, t2 := t0+3600*sec, t0+7200*sec
+		st, _ := schedTokens(2, 1, t0, t2+10*sec)
+		spec := []int64{t0 + 1800*sec, 0, 1, 0, 0, 0, 1} // Forbid, no limits
+		none := []int64{0, 0, 0}                          // empty status
+		mk := func(id, what string, nops int64, ops ...[]int64) {
+			in := cat(st, []int64{0}, spec, none, []int64{0}, []int64{100}, []int64{nops}, cat(ops...))
+			emit(id, 20, in, "cron/history-known", true, map[string]any{"schedule": schedPool[2], "what": what})
+		}
+		// (a) the run of T1 is started and recorded; a reconcile whose job lister does not show it yet
+		// drops the reference and writes the status; at T2 a second run starts next to the first
+		mk("cron-forbid-lister-lag", "job lister lags behind the Create: the reference of the running job is dropped as stale, Forbid no longer blocks", 3,
+			[]int64{0, t1 + 5*sec, 0}, []int64{10, 0, 0, 1, t1 + 6*sec, 0}, []int64{0, t2 + 5*sec, 0})
+		// (b) the same inside one reconcile: at T2 the lister still does not show the run of T1
+		mk("cron-forbid-lister-lag-direct", "job lister does not show the running job at the next schedule point", 2,
+			[]int64{0, t1 + 5*sec, 0}, []int64{10, 0, 0, 1, t2 + 5*sec, 0})
+		// (c) lost status write: the run of T1 is never recorded, at T2 a second run starts
+		mk("cron-forbid-lost-write", "status write of the first start is lost, Forbid has nothing to look at", 2,
+			[]int64{9, t1 + 5*sec, 0}, []int64{0, t2 + 5*sec, 0})
+	}
+
+	// the decision of processTTL next to the boundary on the REAL clock: expiry 150 ms after the run
+	// (must be re-queued, not deleted) and 150 ms before it (must be deleted); the window law
+	// tolerates the clock.  The model's two clock readings are "at the run", so the correspondence
+	// entry is told the sign only (expiry rounded away from the run to +-5 s would change nothing)
+	for i, ttl := range []int64{0, 1, 60} {
+		for k, off := range []int64{150 * 1000000, -150 * 1000000} {
+			g := gjob{uid: int64(1 + i), phase: int64(1 + i%3), ttl: ptrI(ttl), finish: ptrI(off - ttl*sec), created: ptrI(-86400 * sec)}
+			emit(fmt.Sprintf("gc-process-near-%d-%d", i, k), 3, cat(encOptGjob(&g), encOptGjob(&g)), "gc/processJob-near-boundary", true, nil)
+		}
 	}
 
 	// --- random streams ---
